@@ -194,6 +194,18 @@ class Session:
         self.warnings = env.log_capture.take()
         return self.segments
 
+    def type_at_prompt(self, text):
+        """one command line typed at the tool's own `wl debug $` prompt (file and run mode take commands that way), then the
+        prompt is left alone (end of input)"""
+        from frontends.tui import TerminalUI
+        lines = [text]
+
+        def input_func(prompt):
+            if lines:
+                return lines.pop(0)
+            raise EOFError()
+        TerminalUI(self.ctl, self.ctl, input_func).run_until_stopped()
+
     # helpers ----------------------------------------------------------------------------------
     def messages(self):
         return list(self.ctl.all_messages)
